@@ -1,7 +1,7 @@
 #!/bin/sh
 # keep_refactorings.sh <prop> <round>   - copy /tmp/refac_<round>_<prop>/refactor_i.diff into /verif/refactorings/<prop>-<round>-<i>/patch.diff
 P=$1; R=$2
-for i in 1 2 3 4; do
+for i in 1 2 3 4; do # (a batch may have fewer)
   f=/tmp/refac_${R}_$P/refactor_$i.diff
   [ -s "$f" ] || continue
   mkdir -p /verif/refactorings/$P-$R-$i
